@@ -313,6 +313,12 @@ func aosToSwagger(a obj) obj {
 		}
 	}
 	pi := obj{"post": op}
+	if sh, ok := a["pathShadow"].([]any); ok {
+		// parameters the path item shares, which the operation re-declares (and thereby overrides)
+		for _, p := range sh {
+			pathLevel = append(pathLevel, absSchema(p))
+		}
+	}
 	if len(pathLevel) > 0 {
 		pi["parameters"] = pathLevel
 	}
